@@ -76,14 +76,13 @@ theorem readPlace_shaped {W : World} {vty : Var → Ty} {ρ : VStore} (hρ : ∀
 /-- statement-level assignment / compound assignment to a vector variable or a swizzle of one -/
 theorem sim_massign (hag : VAgreeM cx vis env vvty) (hw : Worlds cx rsv W M) {o : IntrinsicOp} {b : BinOp} {lhs rhs : VExpr}
     {lhs' rhs' : VAExpr} {T : VTy}
-    (hf : mslOpForm o = .binary b) (hgl : genMV cx vvty lhs = .ok lhs') (hgr : genMV cx vvty rhs = .ok rhs')
+    (hbs : astBinSem b = irOpSem o) (hgl : genMV cx vvty lhs = .ok lhs') (hgr : genMV cx vvty rhs = .ok rhs')
     (hok : VIr.assignOK W.sig cx.vty vvty lhs rhs = some T) (hpl : placeOKM vis vvty lhs = true)
     (hol : VOk.okMV (side cx W vis rsv) vvty lhs = true) (hor : VOk.okMV (side cx W vis rsv) vvty rhs = true)
     (hsem : irOpSem o = .assign ∨ ∃ m, irOpSem o = .compound m ∧ binSide m T ∧ (m = .mod → T.scalar ≠ .float)) :
     ∀ ρ, (∀ y, VOk.shaped (vvty y) (ρ y) = true) → ∀ σ,
       VMsl.evalTop M env ρ (.bin b lhs' rhs') σ = VIr.evalTop W ρ (.op o (.cons lhs (.cons rhs .nil))) σ := by
   intro ρ hρ σ
-  have hbs := op_binaryM hf
   cases hp : VIr.placeOf lhs with
   | none => simp [VIr.assignOK, hp] at hok
   | some pl =>
@@ -124,22 +123,136 @@ theorem sim_massign (hag : VAgreeM cx vis env vvty) (hw : Worlds cx rsv W M) {o 
             | some cur =>
               have sc := readPlace_shaped (W := W) (vty := cx.vty) hρ hp htl hrp
               have sv := shape_sound hρ rhs tl σ σ1 v htr hv
-              simp only [VMsl.convMV, if_true, binAt_self hside sc sv, hw.prim]
+              simp only [VMsl.convMV, if_true, binAt_self hside sc sv hrem, hw.prim]
               cases lift2 (binop W.P m) cur v with
               | none => rfl
               | some r1 =>
                 simp only []
                 cases writePlace (ρ x) (Option.map (List.map slotIdx) sl) r1 <;> rfl
 
-theorem binSide_of_B {m : MBin} {T : VTy} (h : VOk.binSideB m T = true) : binSide m T ∧ (m = .mod → T.scalar ≠ .float) := by
-  simp only [VOk.binSideB, Bool.and_eq_true, Bool.not_eq_true', Bool.and_eq_false_iff] at h
-  refine ⟨?_, ?_⟩
-  · cases T with
-    | vec k n => trivial
-    | sc k => simpa [binSide] using h.1
-  · intro hm; subst hm
-    rcases h.2 with h2 | h2
-    · simp at h2
-    · simpa using h2
+theorem binSide_of_B {m : MBin} {T : VTy} (h : VOk.binSideB m T = true) : binSide m T := by
+  cases T with
+  | vec k n => trivial
+  | sc k => simpa [binSide, VOk.binSideB] using h
+
+/-- evaluating a place expression reads the place and changes nothing -/
+theorem eval_place {W : World} {ρ : VStore} {lhs : VExpr} {x : Var} {sl : Option (List SwizzleSlot)}
+    (hp : VIr.placeOf lhs = some (x, sl)) (σ : Store) :
+    VIr.eval W ρ lhs σ = (readPlace (ρ x) (sl.map (·.map slotIdx))).map (fun c => (c, σ)) := by
+  cases lhs with
+  | vvar id => simp [VIr.placeOf] at hp; obtain ⟨rfl, rfl⟩ := hp; simp [readPlace, VIr.eval]
+  | vglobal id => simp [VIr.placeOf] at hp; obtain ⟨rfl, rfl⟩ := hp; simp [readPlace, VIr.eval]
+  | swz e l =>
+    cases e with
+    | vvar id =>
+      simp [VIr.placeOf] at hp; obtain ⟨rfl, rfl⟩ := hp
+      simp [readPlace, VIr.eval]
+      cases select (List.map slotIdx l) (ρ (.loc id)) <;> rfl
+    | vglobal id =>
+      simp [VIr.placeOf] at hp; obtain ⟨rfl, rfl⟩ := hp
+      simp [readPlace, VIr.eval]
+      cases select (List.map slotIdx l) (ρ (.glob id)) <;> rfl
+    | _ => simp [VIr.placeOf] at hp
+  | _ => simp [VIr.placeOf] at hp
+
+/-- statement-level `%=` on a floating-point vector place, as emitted since fixes 92d66eb + 35faaaa: `l = metal::fmod(l, r)` -/
+theorem sim_mremassign (hag : VAgreeM cx vis env vvty) (hw : Worlds cx rsv W M) {o : IntrinsicOp} {lhs rhs : VExpr}
+    {lhs' rhs' : VAExpr} {T : VTy}
+    (hc : irOpSem o = .compound .mod) (hgl : genMV cx vvty lhs = .ok lhs') (hgr : genMV cx vvty rhs = .ok rhs')
+    (hok : VIr.assignOK W.sig cx.vty vvty lhs rhs = some T) (hpl : placeOKM vis vvty lhs = true)
+    (hol : VOk.okMV (side cx W vis rsv) vvty lhs = true) (hor : VOk.okMV (side cx W vis rsv) vvty rhs = true)
+    (hfl : T.scalar = .float) :
+    ∀ ρ, (∀ y, VOk.shaped (vvty y) (ρ y) = true) → ∀ σ,
+      VMsl.evalTop M env ρ (.bin .Assignment lhs' (.call Msl.fmodName (.cons lhs' (.cons rhs' .nil)))) σ =
+        VIr.evalTop W ρ (.op o (.cons lhs (.cons rhs .nil))) σ := by
+  intro ρ hρ σ
+  have hbs : astBinSem .Assignment = .assign := rfl
+  cases hp : VIr.placeOf lhs with
+  | none => simp [VIr.assignOK, hp] at hok
+  | some pl =>
+    obtain ⟨x, sl⟩ := pl
+    cases htl : VIr.typeOf W.sig cx.vty vvty lhs with
+    | none => simp [VIr.assignOK, hp, htl] at hok
+    | some tl =>
+      cases htr : VIr.typeOf W.sig cx.vty vvty rhs with
+      | none => simp [VIr.assignOK, hp, htl, htr] at hok
+      | some tr =>
+        simp [VIr.assignOK, hp, htl, htr] at hok
+        obtain ⟨rfl, rfl⟩ := hok
+        obtain ⟨hlv, hnd⟩ := lval_genMV hag hp hpl hgl
+        have hL := sim_mv (ρ := ρ) hag hw hρ lhs lhs' tl hgl htl hol
+        have hR := sim_mv (ρ := ρ) hag hw hρ rhs rhs' tl hgr htr hor
+        have hside : binSide .mod tl := by
+          cases tl with
+          | vec k n => trivial
+          | sc k => simp [VTy.scalar] at hfl; subst hfl; simp [binSide, Msl.isShift, VOk.arithK]
+        have hbt := binTy_self hside
+        simp only [VMsl.evalTop, hbs, hlv, hL.1, hR.1, VMsl.typeOf, VMsl.argTypes, VMsl.callTy, beq_self_eq_true, if_true, hfl, and_self,
+          hbt, convOK_self, hnd, Bool.and_self, convMVR_self, VMsl.eval, VMsl.evalArgs, hL.2 σ, eval_place hp, VIr.evalTop, hc, hp]
+        cases hrp : readPlace (ρ x) (Option.map (List.map slotIdx) sl) with
+        | none =>
+          simp only [Option.map_none]
+          cases VIr.eval W ρ rhs σ with
+          | none => rfl
+          | some r => rfl
+        | some cur =>
+          simp only [Option.map_some, hR.2 σ]
+          cases hv : VIr.eval W ρ rhs σ with
+          | none => rfl
+          | some r =>
+            obtain ⟨v, σ1⟩ := r
+            simp only [VMsl.callVal, beq_self_eq_true, if_true, hfl, and_self, hbt, VMsl.operand, VMsl.convMV, hw.prim]
+            cases lift2 (binop W.P .mod) cur v with
+            | none => rfl
+            | some r1 =>
+              simp only []
+              cases writePlace (ρ x) (Option.map (List.map slotIdx) sl) r1 <;> rfl
+
+/-- what the exporter emits for a top-level assignment whose two sides it exports: `l op r` through the operator table, and
+for `%=` on a floating-point place (fixes 92d66eb + 35faaaa; generation succeeds only for a plain place and a right
+operand free of writes) `l = metal::fmod(l, r)` -/
+theorem genMV_assign_shape (hw : Worlds cx rsv W M) {o : IntrinsicOp} {lhs rhs : VExpr} {lhs' rhs' a : VAExpr} {T : VTy}
+    (hgl : genMV cx vvty lhs = .ok lhs') (hgr : genMV cx vvty rhs = .ok rhs')
+    (hg : genMV cx vvty (.op o (.cons lhs (.cons rhs .nil))) = .ok a)
+    (htl : VIr.typeOf W.sig cx.vty vvty lhs = some T) (hbk : VOk.basicK T.scalar = true)
+    (hsem : irOpSem o = .assign ∨ ∃ m, irOpSem o = .compound m) :
+    (irOpSem o = .compound .mod ∧ T.scalar = .float ∧ plainPlaceV lhs = true ∧ freeOfWritesV rhs = true ∧
+        a = .bin .Assignment lhs' (.call Msl.fmodName (.cons lhs' (.cons rhs' .nil)))) ∨
+    (¬ (irOpSem o = .compound .mod ∧ T.scalar = .float) ∧ ∃ b, astBinSem b = irOpSem o ∧ a = .bin b lhs' rhs') := by
+  have hgt := getTy_ok hw.ret lhs T htl
+  cases hf : mslOpForm o with
+  | special => simp [genMV, hf] at hg
+  | meshMethod => simp [genMV, hf] at hg
+  | meshHelper => simp [genMV, hf] at hg
+  | unary u => simp [genMV, hf] at hg
+  | binary b =>
+    simp [genMV, hf, genMBinary, hgl, hgr] at hg
+    refine .inr ⟨fun h => ?_, b, op_binaryM hf, hg.symm⟩
+    cases o <;> simp [mslOpForm] at hf <;> simp [irOpSem] at h
+  | floatCall name scalars b =>
+    have := (op_floatCallM hf).1
+    rcases hsem with h | ⟨m, h⟩ <;> rw [this] at h <;> simp at h
+  | floatAssign s err outer inner b =>
+    obtain ⟨hc, hbs, rfl, rfl, rfl, rfl⟩ := op_floatAssignM hf
+    have hfm : mslOpForm .Modulus = .floatCall "fmod" ["Float16", "Float32", "Float64", "FloatLiteral"] .Modulus := rfl
+    have has : mslOpForm .Assignment = .binary .Assignment := rfl
+    by_cases hfl : T.scalar = .float
+    · left
+      have hin : scalarIn ["Float16", "Float32", "Float64"] T.scalar = true := by rw [hfl]; decide
+      have hin4 : scalarIn ["Float16", "Float32", "Float64", "FloatLiteral"] T.scalar = true := by rw [hfl]; decide
+      cases hpo : (plainPlaceV lhs && freeOfWritesV rhs) with
+      | false => simp [genMV, hf, getTyHead, hgt, hin, remOperandsOKV, hpo] at hg
+      | true =>
+        simp [genMV, hf, getTyHead, hgt, hin, remOperandsOKV, hpo, has, genMHead, hgl, hfm, hin4, genMArgs, hgr] at hg
+        rw [Bool.and_eq_true] at hpo
+        refine ⟨hc, hfl, hpo.1, hpo.2, ?_⟩
+        rw [← hg]
+        have : metalLib "fmod" = Msl.fmodName := by decide
+        rw [this]
+    · right
+      have hin : scalarIn ["Float16", "Float32", "Float64"] T.scalar = false := by
+        cases hk : T.scalar <;> simp [hk, VOk.basicK] at hbk hfl <;> decide
+      simp [genMV, hf, getTyHead, hgt, hin, genMBinary, hgl, hgr] at hg
+      exact ⟨fun h => hfl h.2, _, hbs.trans hc.symm, hg.symm⟩
 
 end RsslVerif.Lemmas.GenMslVec
